@@ -140,9 +140,19 @@ def main(pid, tier, seed, replay=None):
     kl, kclasses = replay_known(pid)
     known_lines.extend(kl)
     ctx = {'pid': pid, 'tier': tier, 'seed': seed, 'rng': rng, 'replay': replay, 'known_classes': kclasses}
-    res = mod.explore(ctx)
+    import regress
+    n_fixed, fixed_fail = regress.replay_fixed(pid)
+    try:
+        res = mod.explore(ctx)
+    except Exception:                      # the harness could not interpret what the implementation did
+        import traceback
+        tb = traceback.format_exc()
+        log('exploration aborted:\n' + tb)
+        res = {'coverage': {'evaluations': 0, 'distinct_nontrivial': 0, 'rule': 'exploration aborted by an exception in the harness'},
+               'failures': [{'kind': 'corr', 'what': 'the harness could not interpret the behaviour of the implementation', 'payload': {'traceback': tb[-3000:]}}]}
     coverage.update(res['coverage'])
-    failures = res['failures']          # list of dict(kind='spec'|'corr', what, case/replay payload, known=None|id)
+    coverage['fixed_witnesses_replayed'] = n_fixed
+    failures = fixed_fail + res['failures']          # list of dict(kind='spec'|'corr', what, case/replay payload, known=None|id)
     for line in res.get('known_lines', []):
         if line not in known_lines:
             known_lines.append(line)
